@@ -335,6 +335,7 @@ pub fn exec(m: Mode, spec: &Spec, r: &mut RunResult) {
             account(r, &out, &st, &op.kind);
             rec.op(&cfg, &op.kind, op.fault, &out, &st, &spec.world.goals[op.goal]);
             let interrupted = st.sc_false > 0;
+            let truncated = st.probes.get("solve.needs_truncation").cloned().unwrap_or(0) > 0 || st.probes.get("slg.table_floundered").cloned().unwrap_or(0) > 0;
             match &out {
                 Out::Faulted(..) => {
                     after_fault[op.slot] = true;
@@ -413,7 +414,12 @@ pub fn exec(m: Mode, spec: &Spec, r: &mut RunResult) {
                     } else if m != Mode::C01 {
                         // limit-reached exclusion for C02: does the default configuration decide it?
                         let mut excluded = false;
-                        if m == Mode::C02 && reduced {
+                        if m == Mode::C02 && truncated {
+                            // the size limit fired during this very operation (hook probe): limit reached
+                            excluded = true;
+                            r.bump("excluded.limit_reached_truncation_probe", 1);
+                        }
+                        if !excluded && m == Mode::C02 && reduced {
                             let dflt = memo.get(&l, &spec.slots[op.slot], op.goal, &OpKind::Solve, spec.budget).0.clone();
                             if let Out::Ans(d) = &dflt {
                                 if d.as_ref().map(|s| !s.is_ambig()).unwrap_or(true) {
